@@ -651,8 +651,15 @@ func (c *octx) waits() *eng.Violation {
 			}
 		}
 		// cancellation inside a wait: the run ends at that very instant
-		if cn := c.sc.Canceller; cn != nil && cn.Kind == "time" && len(or.Cancels) > 0 {
-			at := or.Cancels[0].T
+		cn := c.sc.Canceller
+		byDeadline := c.sc.Ctx.Kind == "deadline" && or.End.T >= c.sc.Ctx.DeadlineUs*1000
+		if (cn != nil && cn.Kind == "time" && len(or.Cancels) > 0) || byDeadline {
+			var at int64
+			if byDeadline {
+				at = c.sc.Ctx.DeadlineUs * 1000
+			} else {
+				at = or.Cancels[0].T
+			}
 			sleeps := false
 			for _, e := range or.All {
 				if strings.HasSuffix(e.Kind, "_end") && e.T > at {
@@ -725,12 +732,27 @@ func (c *octx) batchCancel() *eng.Violation {
 		or := c.obs.Runs[i]
 		e := or.End
 		pre := c.sc.Ctx.Kind == "precancel"
-		if !pre && len(or.Cancels) == 0 {
+		byDeadline := c.sc.Ctx.Kind == "deadline" && e.T > c.sc.Ctx.DeadlineUs*1000
+		if c.sc.Ctx.Kind == "deadline" && !byDeadline {
+			// ended at or before the deadline instant: only a run that ended exactly there was cut
+			byDeadline = e.T == c.sc.Ctx.DeadlineUs*1000
+		}
+		if !pre && !byDeadline && len(or.Cancels) == 0 {
 			continue
 		}
 		var k simrt.Event
-		if !pre {
+		switch {
+		case byDeadline:
+			// the cancellation instant is the deadline; no task cancelled it itself
+			k = simrt.Event{Seq: -1, T: c.sc.Ctx.DeadlineUs * 1000, Task: "(deadline)"}
+		case !pre:
 			k = or.Cancels[0]
+		}
+		before := func(ev simrt.Event) bool {
+			if byDeadline {
+				return ev.T < k.T
+			}
+			return ev.Seq < k.Seq
 		}
 		for _, bv := range c.batchViews() {
 			if bv.run != i {
@@ -739,7 +761,7 @@ func (c *octx) batchCancel() *eng.Violation {
 			mb := bv.mb
 			after := map[string]int{}
 			for _, ev := range bv.evs {
-				if ev.Kind != "exec_start" || (!pre && ev.Seq < k.Seq) {
+				if ev.Kind != "exec_start" || (!pre && before(ev)) {
 					continue
 				}
 				after[ev.Task]++
